@@ -31,7 +31,11 @@ def run(F, tier):
     accept.u6(rep, F, "parser")
     # what the extraction primitives hand to the field parsers (and hence what an error's `value` carries)
     accept.u7(rep, F, "parser")
+    accept.u8(rep, F)
     # a parser that stops before the end of the block accepts a message whose later mandatory fields are damaged:
     # the end-of-input check is part of enforcing the structure (shared with C01)
     grules.g1(rep, tms)
+    # the order in which the steps are taken is part of the structure that is enforced: a mandatory step taken
+    # before an optional one that precedes it in the documented layout skips over that field unseen
+    grules.g11(rep, tms)
     return rep
